@@ -75,4 +75,9 @@ def w32 (x : Int) : Int := wrapS 32 x
 /-- `arith_shift_left (x, k)` / gcc's `x << k` on int32_t -/
 def shl32 (x : Int) (k : Nat) : Int := wrapS 32 (x * (2 : Int) ^ k)
 
+/-- the uint32_t residue -/
+def u32 (x : Int) : Nat := wrapU 32 x
+/-- `x | s` on 32-bit words, back as int32_t -/
+def orU32 (x : Int) (s : Nat) : Int := w32 ((u32 x ||| s : Nat) : Int)
+
 end Sf.AlacCore
